@@ -68,6 +68,13 @@ def run_shard(params):
     seen = set()
     classes = set()
     todo = [(stop_sim.gen_params(rng, i, tier, force=params.get("force")), False) for i in range(params["n"])]
+    # one history per shard of a class the uniform draw rarely produces: the consumer subscribes after start() while a
+    # Metadata request is in flight, the library's default metadata_max_age_ms (no periodic refresh within the run), and the
+    # cluster becomes unreachable / fails over before stop()
+    todo.append((stop_sim.gen_params(rng, params["n"], tier, force=dict(
+        params.get("force") or {}, workload="group_consumer", late_subscribe=True, md_slow_at_start=True,
+        metadata_max_age_ms=300000, coordinator_loading=False, fatal_group_error=None, resubscribe_after=rng.choice([0.05, 0.3]),
+        cluster=rng.choice(["refuse", "failover", "blackhole", "restored"]))), False))
     if params.get("shard_index", 0) == 0:
         import json as _json
         import os as _os
